@@ -117,6 +117,22 @@ pub fn c01(c: &mut Ctx, b: &Budget) {
             pairs.push((format!("&str {:?}", t), Envelope::new(t), CBOR::from(t)));
             pairs.push((format!("String {:?}", t), Envelope::new(t.to_string()), CBOR::from(t.to_string())));
         }
+        // CBOR values that look like envelope-level encodings, handed to Envelope::new as VALUES: each is a leaf holding that value
+        for (name, v) in [("tag 200 around an envelope", Envelope::new("inner").add_assertion("k", 1).tagged_cbor()), ("tag 200 around a leaf", CBOR::to_tagged_value(200u64, CBOR::to_tagged_value(201u64, "x"))),
+                          ("tag 201", CBOR::to_tagged_value(201u64, "x")), ("tag 24", CBOR::to_tagged_value(24u64, CBOR::to_byte_string(vec![1u8, 2]))), ("a 32-byte string", CBOR::to_byte_string(vec![7u8; 32])),
+                          ("tag 40000", CBOR::to_tagged_value(40000u64, 5u64)), ("array of two", CBOR::from(vec![CBOR::from(1), CBOR::from(2)])), ("one-entry map", { let mut m = Map::new(); m.insert(1, 2); m.into() })] {
+            pairs.push((format!("CBOR value: {}", name), Envelope::new(v.clone()), v));
+        }
+        // a compressed element that records no digest is refused (there is nothing to declare), built or decoded - never given a digest of the library's own making
+        {
+            let inner = Envelope::new("payload").add_assertion("k", "v");
+            let zd = bc_components::Compressed::from_uncompressed_data(inner.tagged_cbor().to_cbor_data(), None::<bc_components::Digest>);
+            let built = crate::interp::guarded(|| Envelope::try_from(zd.clone()).map(|e| (e.digest().into_owned(), e.uncompress().map(|u| u.digest().into_owned()).ok())));
+            c.check("spec-digest", match &built { Ok(Err(_)) => true, Ok(Ok((d, Some(u)))) => d == u && *u == inner.digest().into_owned(), _ => false }, "digestless-compressed-accepted", || format!("a compressed element without a digest was accepted with a digest that is not its content's: {:?}", built.as_ref().map(|r| r.as_ref().map(|(d, u)| (hex::encode(&d.data()[..6]), u.as_ref().map(|x| hex::encode(&x.data()[..6])))).map_err(|e| e.to_string()))));
+            let three = CBOR::to_tagged_value(200u64, CBOR::to_tagged_value(40003u64, CBOR::from(vec![CBOR::from(0u64), CBOR::from(3u64), CBOR::to_byte_string(vec![1u8, 2, 3])])));
+            let dec = crate::interp::guarded(|| Envelope::try_from_cbor_data(three.to_cbor_data()).is_ok());
+            c.check("spec-digest", dec == Ok(false), "digestless-compressed-accepted", || "a decoded compressed element without a digest was accepted".into());
+        }
         macro_rules! ints { ($($ty:ty),*) => { $( for v in [<$ty>::MIN, <$ty>::MAX, 0 as $ty, 1 as $ty, 23 as $ty, 24 as $ty, 100 as $ty] { pairs.push((format!("{} {}", stringify!($ty), v), Envelope::new(v), CBOR::from(v))); } )* } }
         ints!(u8, u16, u32, u64, usize, i8, i16, i32, i64);
         for v in [255u64, 256, 65535, 65536, 4294967295, 4294967296] { pairs.push((format!("u64 {}", v), Envelope::new(v), CBOR::from(v))); }
@@ -137,6 +153,12 @@ pub fn c01(c: &mut Ctx, b: &Budget) {
             let viacbor = if let CBORCase::Tagged(t, inner) = generic.as_case() { if t.value() == 40000 { match inner.as_case() { CBORCase::Unsigned(n) => Envelope::new(KnownValue::new(*n)), _ => Envelope::new(generic.clone()) } } else { Envelope::new(generic.clone()) } } else { Envelope::new(generic.clone()) };
             let r = check_spec_digests(typed);
             c.check("spec-digest", r.is_ok(), "spec-digest", || format!("Envelope::new({}): {}", what, r.unwrap_err()));
+            // a value handed to Envelope::new is the leaf holding that value: its digest is the hash of the value's dCBOR encoding
+            if !typed.is_known_value() {
+                use sha2::Digest as _;
+                let want = sha2::Sha256::digest(generic.to_cbor_data());
+                c.check("leaf-holds-value", typed.is_leaf() && typed.digest().data()[..] == want[..], "leaf-holds-value", || format!("Envelope::new({}) is {} with digest {}; the leaf of that value has digest {}", what, shape(typed), hex::encode(typed.digest().data()), hex::encode(want)));
+            }
             // the same value through its own encoding, decoded again
             let back = Envelope::from_tagged_cbor_data(typed.tagged_cbor().to_cbor_data());
             c.check("typed-constructor-route", back.as_ref().map(|b2| b2.digest() == typed.digest()).unwrap_or(false) && (typed.is_known_value() || typed.digest() == viacbor.digest()), "route-independent",
@@ -923,6 +945,14 @@ fn decode_case(c: &mut Ctx, family: &str, kind: &str, bytes: &[u8]) {
         Err(e) => Err(format!("not dCBOR: {}", e)),
     };
     c.count(if g.is_ok() { "input:grammatical" } else { "input:ungrammatical" });
+    // every byte-level door gives the same verdict and the same envelope (from_tagged_cbor_data is the one the scenario uses)
+    {
+        let main = crate::interp::guarded(|| Envelope::from_tagged_cbor_data(bytes.to_vec()).ok().map(|e| e.tagged_cbor().to_cbor_data()));
+        let door2 = crate::interp::guarded(|| Envelope::try_from_cbor_data(bytes.to_vec()).ok().map(|e| e.tagged_cbor().to_cbor_data()));
+        let door3 = crate::interp::guarded(|| CBOR::try_from_data(bytes).ok().and_then(|cb| Envelope::try_from_cbor(cb).ok()).map(|e| e.tagged_cbor().to_cbor_data()));
+        let door4 = crate::interp::guarded(|| CBOR::try_from_data(bytes).ok().and_then(|cb| Envelope::try_from(cb).ok()).map(|e| e.tagged_cbor().to_cbor_data()));
+        c.check("decoder-doors-agree", main == door2 && main == door3 && main == door4, "decoder-doors-differ", || format!("{}: from_tagged_cbor_data {:?}, try_from_cbor_data {:?}, try_from_cbor {:?}, TryFrom<CBOR> {:?}", hx, main.as_ref().map(|o| o.as_ref().map(hex::encode)), door2.as_ref().map(|o| o.as_ref().map(hex::encode)), door3.as_ref().map(|o| o.as_ref().map(hex::encode)), door4.as_ref().map(|o| o.as_ref().map(hex::encode))));
+    }
     match &v {
         crate::interp::Val::Panic(site) => { let site = site.clone(); c.check("decode-no-panic", false, "decode-panic", || format!("decode panicked at {} on {}", site, hx)); }
         crate::interp::Val::Env(e) => {
@@ -967,6 +997,42 @@ pub fn c06(c: &mut Ctx, b: &Budget) {
         let bs = CBOR::to_byte_string(item.clone()).to_cbor_data();
         let mut embedded = vec![0xd8, 0xc8, 0xd8, 0x18]; embedded.extend_from_slice(&bs);
         decode_case(c, "legacy-tag", "legacy-24-embedded-bytes", &embedded);
+    }
+    // deep encodings (the encoder's own output): runs of 250..260, 300, 513, 1025 wrappers, deep node-in-node and assertion chains -
+    // accepted or refused, never a panic, and accepted ones re-encode exactly
+    {
+        let depths: Vec<usize> = if b.thorough { vec![31, 32, 33, 63, 64, 65, 127, 128, 129, 250, 255, 256, 257, 258, 259, 260, 300, 513, 1025] } else { vec![32, 33, 64, 65, 128, 129, 256, 257, 258, 300, 513] };
+        for d in depths {
+            let mut w: Vec<u8> = vec![]; for _ in 0..=d { w.extend_from_slice(&[0xd8, 0xc8]); } w.extend_from_slice(&[0xd8, 0xc9, 0x01]);
+            decode_case(c, "deep-encoding", "wrappers", &w);
+            // node whose subject is a node whose subject is ... (d levels), each with one assertion
+            // (assembled as CBOR by hand, not through the decoder under test)
+            let mut nn = Envelope::new("x").untagged_cbor();
+            for k in 0..d.min(300) { nn = CBOR::from(vec![nn, Envelope::new_assertion(k as u64, 1).untagged_cbor()]); }
+            decode_case(c, "deep-encoding", "node-under-node", &CBOR::to_tagged_value(200u64, nn).to_cbor_data());
+            // what the API itself builds - wrap, add an assertion, wrap, ... - with a node on top and with a wrapper on top: the
+            // encoder's own output is read back whatever its depth
+            let mut wn = Envelope::new("x");
+            for k in 0..d.min(300) { wn = wn.wrap_envelope().add_assertion(k as u64 % 3, 1); }
+            for (what, top) in [("wrap-node-chain", wn.clone()), ("wrapped-wrap-node-chain", wn.wrap_envelope()), ("twice-wrapped-wrap-node-chain", wn.wrap_envelope().wrap_envelope())] {
+                let bytes = top.tagged_cbor().to_cbor_data();
+                decode_case(c, "deep-encoding", what, &bytes);
+                let back = crate::interp::guarded(|| Envelope::try_from_cbor_data(bytes.clone()));
+                c.check("own-output-decodes", matches!(&back, Ok(Ok(x)) if x.is_identical_to(&top)), "own-output-decodes", || format!("{} of depth {}: the encoder's output is not read back ({})", what, d, match &back { Ok(Ok(_)) => "another envelope".to_string(), Ok(Err(er)) => format!("refused: {}", er), Err(p) => format!("panic: {}", p) }));
+            }
+            let mut a = Envelope::new("bottom");
+            for k in 0..d.min(300) { a = Envelope::new(k as u64).add_assertion("next", a); }
+            decode_case(c, "deep-encoding", "object-chain", &a.tagged_cbor().to_cbor_data());
+        }
+    }
+    // a valid encoding followed by one more byte, every value (white space, NUL, 0xff, a break code ...): trailing data is refused
+    {
+        let samples = [Envelope::new(1), Envelope::new("Alice").add_assertion("knows", "Bob"), Envelope::new("x").wrap_envelope(), Envelope::new("y").elide()];
+        for (si, smp) in samples.iter().enumerate() {
+            let base = smp.tagged_cbor().to_cbor_data();
+            for v in 0..=255u8 { if !b.thorough && si > 0 && ![0x09u8, 0x0a, 0x0c, 0x0d, 0x20, 0x00, 0xff, 0xf6].contains(&v) { continue; } let mut x = base.clone(); x.push(v); decode_case(c, "trailing-byte", "appended-byte", &x); }
+            for tail in [&b"\r\n"[..], &b"  "[..], &b"\n\n\n"[..], &b" \t"[..]] { let mut x = base.clone(); x.extend_from_slice(tail); decode_case(c, "trailing-byte", "appended-whitespace", &x); }
+        }
     }
     // tags that are a real element tag plus a multiple of 2^8, 2^16, 2^32 (what a narrowing conversion would fold onto it), on the
     // outermost element and on inner ones
@@ -1057,4 +1123,63 @@ pub fn c06(c: &mut Ctx, b: &Budget) {
             decode_case(c, "random", "random", &rb);
         }
     }
+}
+
+/// text that is not in Unicode NFC through every constructor route (&str, String, CBOR, decoded): one leaf, one digest, before and
+/// after encoding; assertions built from it through different routes are one assertion
+pub fn typed_text_routes(c: &mut Ctx, _b: &Budget, prop: &str) {
+    c.begin("typed-text-routes");
+    for t in ["Cafe\u{301}", "\u{212b}ngstr\u{f6}m", "\u{1112}\u{1161}\u{11ab}", "a\u{323}\u{307}", "e\u{301}\u{301}", "plain ascii", "\u{e9} precomposed", "nai\u{308}ve text that is longer than twenty-three bytes in any form"] {
+        let by_str = Envelope::new(t); let by_string = Envelope::new(t.to_string()); let by_cbor = Envelope::new(CBOR::from(t));
+        let decoded = Envelope::try_from_cbor_data(by_cbor.tagged_cbor().to_cbor_data()).ok();
+        let same = |a: &Envelope, b2: &Envelope| a.digest() == b2.digest() && a.is_identical_to(b2) && a.tagged_cbor().to_cbor_data() == b2.tagged_cbor().to_cbor_data();
+        c.check("equal-values-equal-digests", same(&by_str, &by_string) && same(&by_str, &by_cbor) && decoded.as_ref().map(|d| same(&by_str, d)).unwrap_or(false), "typed-text-route-differs", || format!("{:?}: &str {} String {} CBOR {} decoded {:?}", t, shape(&by_str), shape(&by_string), shape(&by_cbor), decoded.as_ref().map(shape)));
+        let r = check_spec_digests(&by_str); c.check("spec-digest", r.is_ok(), "spec-digest", || r.unwrap_err());
+        if prop == "C05" {
+            for e in [by_str.clone(), Envelope::new("s").add_assertion(t, t.to_string()).add_assertion("k", t), Envelope::new(t).wrap_envelope()] {
+                let imp = crate::props4::import(c, &e);
+                roundtrip(c, &imp);
+                let d = Envelope::try_from_cbor_data(e.tagged_cbor().to_cbor_data());
+                c.check("roundtrip-identical", matches!(&d, Ok(x) if x.is_identical_to(&e) && x.digest() == e.digest()), "roundtrip-identical", || format!("{:?}: {} does not come back from its own encoding: {:?}", t, shape(&e), d.as_ref().map(shape).map_err(|x| x.to_string())));
+            }
+        } else {
+            // C07: the same assertion through two routes is added once, removed by either
+            let host = Envelope::new("host");
+            let a1 = host.add_assertion("note", t); let a2 = a1.add_assertion("note", t.to_string()); let a3 = a2.add_assertion(CBOR::from("note"), CBOR::from(t));
+            c.check("add-present-noop", same(&a1, &a2) && same(&a1, &a3) && a3.assertions().len() == 1, "add-present-changes", || format!("{:?} added through &str, String and CBOR: {}", t, shape(&a3)));
+            let rm = a1.remove_assertion(Envelope::new_assertion("note", t.to_string()));
+            c.check("remove-restores", same(&rm, &host), "remove-restores", || format!("{:?}: removing the String-built assertion does not undo the &str-built add: {}", t, shape(&rm)));
+        }
+    }
+    c.end();
+}
+
+/// nodes of every size from 1 to 40 assertions (and a few larger), reached by adding, by removing from a larger one, by decoding,
+/// with one assertion elided: specification digests and grammar at every size
+pub fn node_sizes(c: &mut Ctx, b: &Budget, prop: &str) {
+    c.begin("node-sizes");
+    let s0 = c.assign("leaf 6173");
+    let mut regs: Vec<String> = vec![];
+    let max = if b.thorough { 70 } else { 40 };
+    for k in 0..=max { let p = c.assign(&format!("leaf {}", hex::encode(CBOR::from(format!("q{}", k % 5).as_str()).to_cbor_data()))); let o = c.assign(&format!("leaf {}", hex::encode(CBOR::from(1000 + k as u64 * 13).to_cbor_data()))); regs.push(c.assign(&format!("assertion {} {}", p, o))); }
+    let mut e = s0.clone();
+    let mut by_size: Vec<String> = vec![];
+    for a in &regs { e = c.assign(&format!("add {} {}", e, a)); by_size.push(e.clone()); }
+    for (n, r) in by_size.iter().enumerate() {
+        let env = match c.env(r) { Some(x) => x, None => continue };
+        c.obs(&format!("digest {}", r));
+        let v = check_spec_digests(&env); c.check("spec-digest", v.is_ok(), "spec-digest", || format!("node with {} assertions: {}", n + 1, v.unwrap_err()));
+        if prop == "C04" { let g = check_grammar(&env); c.check("grammar", g.is_ok(), "grammar", || format!("node with {} assertions: {}", n + 1, g.unwrap_err())); }
+        if n + 1 < by_size.len() && (n % 3 == 0 || (14..=17).contains(&n) || (30..=33).contains(&n)) {
+            // the same node reached from the next larger one by a removal, and by decoding, and with one assertion elided
+            let rm = c.assign(&format!("remove {} {}", by_size[n + 1], regs[n + 1]));
+            c.obs(&format!("eq {} {}", r, rm));
+            if let Some(x) = c.env(&rm) { let v = check_spec_digests(&x); c.check("spec-digest", v.is_ok() && x.digest() == env.digest(), "spec-digest", || format!("node with {} assertions reached by removal", n + 1)); }
+            let rc = c.assign(&format!("recode {}", r));
+            if let Some(x) = c.env(&rc) { let v = check_spec_digests(&x); c.check("spec-digest", v.is_ok() && x.digest() == env.digest(), "spec-digest", || format!("node with {} assertions decoded", n + 1)); }
+            let el = c.assign(&format!("elide_set {} rem elide {}", r, regs[n / 2]));
+            if let Some(x) = c.env(&el) { c.obs(&format!("digest {}", el)); let v = check_spec_digests(&x); c.check("spec-digest", v.is_ok() && x.digest() == env.digest(), "spec-digest", || format!("node with {} assertions, one elided", n + 1)); }
+        }
+    }
+    c.end();
 }
